@@ -5,6 +5,7 @@ pub mod cloned_buffered_chunk;
 pub mod copied_buffered_chunk;
 pub mod iter;
 pub mod range;
+pub(crate) mod raw_chunk;
 pub mod slice;
 pub mod vec;
 
